@@ -814,6 +814,21 @@ def seq_method(I, recv, name, args, kw):
 
 
 def dict_method(I, recv, name, args, kw):
+    if isinstance(recv, OldView):
+        # read-only view of the pre-state (contracts): values come back as pre-state views
+        cell = I.old_heap[recv.ref.addr]
+        wrap = lambda v: OldView(v) if isinstance(v, Ref) else v
+        unkey = lambda k: k.sym if k.__class__.__name__ == "SymKey" else k
+        if name == "keys":
+            return _ItemsView([unkey(k) for k in cell.d.keys()])
+        if name == "values":
+            return _ItemsView([wrap(v) for v in cell.d.values()])
+        if name == "items":
+            return _ItemsView([SeqV("tuple", None, items=[unkey(k), wrap(v)]) for k, v in cell.d.items()])
+        if name == "get":
+            key = I.dict_key(cell, args[0])
+            return wrap(cell.d[key]) if key in cell.d else (args[1] if len(args) > 1 else None)
+        raise Unsupported(f"dict.{name} on the pre-state")
     cell = I.path.cell(recv)
     if isinstance(cell, MapCell):
         return map_method(I, cell, name, args, kw)
@@ -823,12 +838,13 @@ def dict_method(I, recv, name, args, kw):
         if key in d:
             return d[key]
         return args[1] if len(args) > 1 else None
+    unkey = lambda k: k.sym if k.__class__.__name__ == "SymKey" else k
     if name == "keys":
-        return _ItemsView(list(d.keys()))
+        return _ItemsView([unkey(k) for k in d.keys()])
     if name == "values":
         return _ItemsView(list(d.values()))
     if name == "items":
-        return _ItemsView([SeqV("tuple", None, items=[k, v]) for k, v in d.items()])
+        return _ItemsView([SeqV("tuple", None, items=[unkey(k), v]) for k, v in d.items()])
     if name == "update":
         for a in args:
             ca = I.path.cell(a) if isinstance(a, Ref) else None
